@@ -175,7 +175,9 @@ var (
 		"data:image/png;base64,iVBORw0KGgo=", "data:image/png;base64,iVBO Rw0K\nGgo=", "vbscript:x", "ftp://h/", "tel:+1", "x-app:open",
 		"http://ex ample.com", "http://[::1]:80/", "http://user:pw@host/", "http://host:port/", "http://a.b/%zz", "/%2f}", "/a b", "?q=1", "#frag",
 		"http:\\\\host", "http:/path", "http:opaque", ":nos", "a:b", "./a:b", "HTTP://UP.CASE/", "http://é.example/ü", "", " ", "//", "///x", "http://a.b/c?", "http://a.b/?x=<y>&z=\"",
-		"http://a.b/p%41th", "http://%41.b/", "http://a.b/#fr ag", "http://a.b/#%zz", "*", "http://host/a;b,c", "https://example.com/x y", "%", "http://a.b/\x00", "http://a.b/\x7f"}
+		"http://a.b/p%41th", "http://%41.b/", "http://a.b/#fr ag", "http://a.b/#%zz", "*", "http://host/a;b,c", "https://example.com/x y", "%", "http://a.b/\x00", "http://a.b/\x7f",
+		"/search?q=&amp;lt;", "http://example.com/p?x=&amp;amp;y", "?a=1&amp;copy=2", "http://a.b/?x=&lt;y", "/a&#47;b", "data: text/plain", "data:image/png;base64 iVBOR", "data:\ttext/plain", "data:x y,z",
+		"data:image/gif;base64,R0lG ODlh", "DATA:image/png;base64,AAAA", "http://a.b/?q=%26amp%3B", "mailto:a@b.c?subject=x&amp;body=y"}
 	RelPool    = []string{"", "nofollow", "noopener", "noreferrer", "nofollow noopener", "xnofollowx", "NOFOLLOW", "author", "a b c", "noopenerx", "no follow"}
 	TargetPool = []string{"_blank", "_BLANK", "_self", "", "x", " _blank"}
 	StylePool  = []string{"color: red", "color:red;", "COLOR: RED", "color: red; width: 1px", "width:1px;color:blue;x-prop:y", "color: \\72 ed",
@@ -236,6 +238,9 @@ type DocGen struct {
 	Attrs    []string       // attribute names worth using
 	ValueRes map[string][]*RE // attr name -> value patterns seen in the policy
 	AllRes   []*RE
+	// TrustImpl: let the implementation pre-filter candidate tags in Conforming(); off = build
+	// candidates from the rules alone (so a defect that drops conforming tags stays visible)
+	TrustImpl bool
 }
 
 // NewDocGen inspects a builder history.
